@@ -978,6 +978,13 @@ class BuiltinsMixin:
             return SStr(s.e, "str")
         if enc in ("latin-1", "latin1", "iso-8859-1"):
             return SStr(s.e, "str")
+        if errors != "strict" and enc in ("utf-8", "utf8"):
+            # lenient decoding (ignore / replace / ...): never raises, the result is some text no longer tied to the bytes
+            # (undecodable bytes are dropped or replaced) -- only pure ASCII input is known to survive
+            f = z3.Function(f"utf8dec[{errors}]", z3.StringSort(), z3.StringSort())
+            r = f(s.e)
+            self.run.assume(z3.Implies(self.all_codes_below(s.e, 128), r == s.e))
+            return SStr(r, "str")
         if enc in ("utf-8", "utf8"):
             ok = z3.Bool(self.run.fresh("valid_utf8"))
             ascii_ = self.all_codes_below(s.e, 128)
@@ -986,6 +993,8 @@ class BuiltinsMixin:
             f = z3.Function("utf8dec", z3.StringSort(), z3.StringSort())
             r = f(s.e)
             self.run.assume(z3.And(z3.Length(r) <= z3.Length(s.e), z3.Implies(ascii_, r == s.e), z3.Implies(z3.Length(s.e) > 0, z3.Length(r) > 0)))
+            # strict decoding is the exact inverse of encoding: nothing is dropped
+            self.run.assume(z3.Function("utf8", z3.StringSort(), z3.StringSort())(r) == s.e)
             return SStr(r, "str")
         raise Unsupported(f"decode({encoding!r})")
 
